@@ -157,6 +157,8 @@ type WMsg struct {
 	S int    `json:"s"` // index into senderPool, 0 = nil
 	K string `json:"k"` // test | pid | ping | pong | badutf8 | nonproto | nilmsg
 	D string `json:"d,omitempty"`
+	// Same: this delivery carries the very same message value (pointer) as the one before it in the batch
+	Same bool `json:"same,omitempty"`
 }
 
 type WCase struct {
@@ -217,15 +219,24 @@ func runWire(c WCase) (labels []string, nt bool, err error) {
 	}
 	var wants []want
 	maxT, maxS, maxK, bad := 0, 0, 0, 0
+	sameN := 0
 	hasNil, hasSplit := false, false
 	for bi, batch := range c.Batches {
 		envs := make([]actor.Envelope, 0, len(batch))
 		ts, ss, ks := map[int]bool{}, map[string]bool{}, map[string]bool{}
+		var prevMsg any
+		var prevOK bool
 		for mi, m := range batch {
 			if m.T < 0 || m.T >= nTargets+nWide || m.S < 0 || m.S >= len(senderPool)+nWide {
 				return nil, false, nil
 			}
 			msg, ok := m.build()
+			if m.Same && mi > 0 {
+				// the very same message value as the delivery before (a fan-out, a retry): same pointer
+				msg, ok = prevMsg, prevOK
+				sameN++
+			}
+			prevMsg, prevOK = msg, ok
 			sender := senderOf(m.S)
 			target := actor.NewPID(e.Address(), targetID(m.T))
 			envs = append(envs, actor.Envelope{Msg: remote.VerifDeliver(target, sender, msg)})
@@ -283,6 +294,9 @@ func runWire(c WCase) (labels []string, nt bool, err error) {
 	labels = []string{fmt.Sprintf("batches=%d", len(c.Batches))}
 	if c.Buf > 0 {
 		labels = append(labels, "configured-buffer-size")
+	}
+	if sameN > 0 {
+		labels = append(labels, "same-message-value-delivered-twice-in-a-row")
 	}
 	for _, b := range c.Batches {
 		sz := 0
@@ -348,6 +362,9 @@ func genWire(t *rapid.T) WCase {
 				S: rapid.IntRange(0, maxS).Draw(t, "s"),
 				K: rapid.SampledFrom(kinds).Draw(t, "k"),
 				D: rapid.StringMatching(`[a-c]{0,3}`).Draw(t, "d"),
+			}
+			if i > 0 && rapid.IntRange(0, 7).Draw(t, "same") == 0 {
+				batch[i].Same = true
 			}
 		}
 		c.Batches = append(c.Batches, batch)
